@@ -457,6 +457,26 @@ func legacyWritesSSA(c *Ctx, p *packages.Package, fn *ssa.Function) *tbLegacyWri
 						out.gates = append(out.gates, tbGate{key: key, field: fields[0].field, other: m, pos: site.Pos()})
 					}
 				}
+				// a test of the token's own numeric field must be "is set" (field != 0): a sign or range test drops set
+				// values that the decoder would have read back
+				if bin, isBin := l.V.(*ssa.BinOp); isBin {
+					if k, isK := intConst(bin.Y); isK {
+						if bt, isBasic := bin.X.Type().Underlying().(*types.Basic); isBasic && bt.Info()&types.IsInteger != 0 && bt.Info()&types.IsUnsigned == 0 && lenArg(bin.X) == nil {
+							mine := false
+							for _, m := range ev.fieldMentionsEnv(bin.X, elemEnv[el], 0) {
+								for _, f := range fields {
+									if m == f.field {
+										mine = true
+									}
+								}
+							}
+							isSet := (bin.Op == token.NEQ && k == 0 && l.Pol) || (bin.Op == token.EQL && k == 0 && !l.Pol)
+							if mine && !isSet {
+								out.gates = append(out.gates, tbGate{key: key, field: fields[0].field, other: "the field's own value (" + w.Short(bin) + " = " + boolStr(l.Pol) + "), which is narrower than 'is set'", pos: site.Pos()})
+							}
+						}
+					}
+				}
 			}
 		}
 		for i, f := range fields {
